@@ -259,3 +259,37 @@ func ZZH_C06_emptied_list() {
 	zz.Assert("C06.emptied.meta", err2 == nil)
 	zz.Assert("C06.emptied.group-listed-once", zzTimedOut(im, "chA", kid) == 1)
 }
+
+// ZZH_C04_replay_unordered: the destination service is registered as unordered. A request is
+// accepted, its success receipt is accepted (status SUCCESS, final); then the same request - same
+// pair, same index - is submitted again in a later block. A final status never changes again and a
+// repeated index is not accepted a second time (counters stay).
+// zz:also C02
+func ZZH_C04_replay_unordered() {
+	zzUnorderedB = true
+	exec := zzNewExec(1, big.NewInt(0))
+	exec.ibtpVerify = &zzStubVerify{verdict: make([]uint8, 8), seen: make([]int, 8)}
+	exec.config.ProofType = "serial"
+	zzInterchainWorld(exec)
+	req := zzRequestTx(1, 0, 0)
+	req.IBTP.TimeoutHeight = 0
+	exec.processExecuteEvent(zzBlockOf(1, []pb.Transaction{req}))
+	id := zzSrcFullID() + "-1356:chB:sB-1"
+	st, ok := zzStatusOf(exec, id)
+	zz.Assert("C04.replay.begun", ok && st == pb.TransactionStatus_BEGIN)
+	exec.processExecuteEvent(zzBlockOf(2, []pb.Transaction{zzReceiptTx(1, pb.IBTP_RECEIPT_SUCCESS, 0, 1)}))
+	st, _ = zzStatusOf(exec, id)
+	zz.Assert("C04.replay.succeeded", st == pb.TransactionStatus_SUCCESS)
+	again := zzRequestTx(1, 1, 2)
+	again.IBTP.TimeoutHeight = 0
+	exec.processExecuteEvent(zzBlockOf(3, []pb.Transaction{again}))
+	st, _ = zzStatusOf(exec, id)
+	zz.Assert("C04.replay.final-status-never-changes", st == pb.TransactionStatus_SUCCESS)
+	ic := &pb.Interchain{}
+	if ok, data := exec.ledger.GetState(constant.InterchainContractAddr.Address(), []byte(contracts.INTERCHAINSERVICE_PREFIX+"-"+zzSrcFullID())); ok {
+		_ = ic.Unmarshal(data)
+	}
+	zz.Assert("C02.replay.repeated-index-not-counted-again", ic.InterchainCounter["1356:chB:sB"] == 1)
+	im, _ := exec.ledger.GetInterchainMeta(3)
+	zz.Assert("C02.replay.not-delivered-again", zzDelivered(im, "chB") == 0)
+}
